@@ -472,6 +472,7 @@ func cmdProp(args []string) int {
 	// the real code over the seeded boundary sweep. A clause that was proved but fails at run time
 	// means the verifier (or a spec function's executable reading) is wrong: reported as a violation.
 	crossRuns, crossHolds, crossSkipped := 0, 0, 0
+	var crossInconclusive []string
 	if *tier == "thorough" {
 		type job struct {
 			name string
@@ -521,6 +522,8 @@ func cmdProp(args []string) int {
 						crossRuns++
 						if strings.Contains(rep.TestOutput, "VERIF-REPLAY-HOLDS") {
 							crossHolds++
+						} else {
+							crossInconclusive = append(crossInconclusive, j.name+": "+trunc(strings.ReplaceAll(rep.Note+" "+lastLines(rep.TestOutput, 3), "\n", " | "), 300))
 						}
 					}
 					mu.Unlock()
@@ -533,6 +536,10 @@ func cmdProp(args []string) int {
 		close(ch)
 		wg.Wait()
 		fmt.Printf("crosscheck: %d proved clauses executed on the real code over the boundary sweep, %d hold, %d not executable (input types)\n", crossRuns, crossHolds, crossSkipped)
+		sort.Strings(crossInconclusive)
+		for _, x := range crossInconclusive {
+			fmt.Println("crosscheck inconclusive (ran, neither failed nor confirmed):", x)
+		}
 	}
 	// recorded findings: genuine defects kept on record; printed while they still fail, never alarmed
 	for _, f := range findings {
@@ -678,3 +685,11 @@ func cmdProp(args []string) int {
 
 // propAssumptions: per-property statement of what the component contracts do NOT cover.
 var propAssumptions = map[string][]string{}
+
+func lastLines(s string, n int) string {
+	ls := strings.Split(strings.TrimSpace(s), "\n")
+	if len(ls) > n {
+		ls = ls[len(ls)-n:]
+	}
+	return strings.Join(ls, "\n")
+}
